@@ -14,6 +14,7 @@ import (
 	_ "panmc/checks/c10"
 	_ "panmc/checks/c11"
 	_ "panmc/checks/c12"
+	_ "panmc/checks/c15"
 	_ "panmc/checks/c18"
 )
 
